@@ -3,6 +3,5 @@ CONSTANTS
   Slots = {"1", "2", "3"}
   Big = {"3"}
 CONSTRAINT HW
-INVARIANTS TypeOK P_BuildOnceFrozen
 POSTCONDITION Accepted
 CHECK_DEADLOCK FALSE
